@@ -754,6 +754,184 @@ def multi_validator_stream(ctx, res):
                         res.violate("C11:registered-validator-not-run", "a load returned without running every validator registered on the field", case)
 
 
+def registration_and_reinsertion_stream(ctx, res):
+    """(a) validators that share a name: several closures made by one factory, several lambdas written in one scope, partials of one
+    function, one function registered on two schemas — every registration counts, a load returns only if each one ran and passed;
+    (b) an item configuration that was changed after it came into the list and is then inserted again (assigned to its own position,
+    inserted, appended, the list assigned as a new list): insertion holds it to the item schema's rule as it is now;
+    (c) required strings whose declaration also names a length bound (min_len=0, a max_len, both): empty is still not a value"""
+    import functools
+    import cincoconfig as cc
+    from cincoconfig.support import validator as register
+    # (a)
+    def make_limit(lo_key, hi_key, log):
+        def check(cfg):
+            log.append((lo_key, hi_key))
+            if cfg[lo_key] is not None and cfg[hi_key] is not None and cfg[lo_key] > cfg[hi_key]:
+                raise ValueError("%s must not exceed %s" % (lo_key, hi_key))
+        return check
+
+    def pair(cfg, a, b, log):
+        log.append((a, b))
+        if cfg[a] > cfg[b]:
+            raise ValueError("order")
+    pairs = [("min_size", "max_size"), ("min_age", "max_age"), ("low", "high")]
+    for style in ("factory", "lambda", "partial", "same-function-two-schemas"):
+        for depth in (0, 1):
+            for broken in (None, 0, 1, 2):
+                log = []
+                s = cc.Schema()
+                holder = s.node if depth else s
+                other = s.other
+                for a, b in pairs:
+                    holder[a] = cc.IntField(default=1)
+                    holder[b] = cc.IntField(default=5)
+                    other[a] = cc.IntField(default=1)
+                    other[b] = cc.IntField(default=5)
+                if style == "factory":
+                    for a, b in pairs:
+                        register(holder)(make_limit(a, b, log))
+                elif style == "lambda":
+                    checks = [lambda cfg, a=a, b=b: (log.append((a, b)), 1 / (cfg[a] <= cfg[b]))[0] for a, b in pairs]
+                    for c in checks:
+                        register(holder)(c)
+                elif style == "partial":
+                    for a, b in pairs:
+                        register(holder)(functools.partial(pair, a=a, b=b, log=log))
+                else:
+                    one = make_limit(pairs[0][0], pairs[0][1], log)
+                    register(holder)(one)
+                    register(other)(one)
+                    for a, b in pairs[1:]:
+                        register(holder)(make_limit(a, b, log))
+                body = {}
+                for k, (a, b) in enumerate(pairs):
+                    body[a], body[b] = (50, 5) if broken == k else (2, 4)
+                tree = {"node": body} if depth else dict(body)
+                if style == "same-function-two-schemas":
+                    tree["other"] = {pairs[0][0]: 2, pairs[0][1]: 4}
+                for route in ("load_tree", "validate", "collect"):
+                    cfg = s()
+                    if route != "load_tree":
+                        target = cfg.node if depth else cfg
+                        for k, v in body.items():
+                            target[k] = v                      # each value is fine for its field; assignments run no schema validator
+                    del log[:]
+                    errs = None
+                    try:
+                        if route == "load_tree":
+                            cfg.load_tree(tree)
+                        elif route == "validate":
+                            cfg.validate()
+                        else:
+                            errs = cfg.validate(collect_errors=True)
+                        returned = True
+                    except Exception:  # noqa
+                        returned = False
+                    case = {"stream": "registration", "style": style, "depth": depth, "broken_pair": broken, "route": route, "ran": [list(x) for x in sorted(set(log))]}
+                    res.case(stable(case), kind="registration:" + style)
+                    ok_return = returned and not errs
+                    want_ran = set(pairs) if broken is None else {pairs[broken]}
+                    if ok_return and broken is not None:
+                        res.violate("C11:registered-validator-not-run", "a load / validation returned although a registered schema validator rejects the data (validators "
+                                    "that share a name evicted each other)", case)
+                    elif ok_return and not want_ran <= set(log):
+                        res.violate("C11:registered-validator-not-run", "a load / validation returned without running every registered schema validator", case)
+    # (b)
+    for typed in (False, True):
+        for defect in ("required-list-emptied", "schema-validator", "required-string-emptied", "field-validator"):
+            for route in ("setitem-own-position", "insert", "append", "assign-new-list", "extend", "iadd"):
+                log = []
+                win = cc.Schema()
+                win.name = cc.StringField(required=True)
+                win.start = cc.IntField(default=0)
+                win.end = cc.IntField(default=24, validator=lambda cfg, v: (log.append("field"), v)[1] if v <= 24 else (_ for _ in ()).throw(ValueError("end of day")))
+                win.days = cc.ListField(cc.StringField(), required=True)
+
+                @register(win)
+                def ordered(cfg, log=log):
+                    log.append("schema")
+                    if cfg.start > cfg.end:
+                        raise ValueError("start after end")
+                W = cc.make_type(win, "ReWin") if typed else win
+                s = cc.Schema()
+                s.sched.windows = cc.ListField(W, default=lambda: [])
+                cfg = s()
+                cfg.sched.windows = [{"name": "night", "start": 20, "end": 24, "days": ["sat"]}, {"name": "early", "start": 2, "end": 6, "days": ["mon"]},
+                                     {"name": "noon", "start": 11, "end": 13, "days": ["tue"]}]
+                lst = cfg.sched.windows
+                item = lst[2]
+                try:
+                    if defect == "required-list-emptied":
+                        del item.days[:]
+                    elif defect == "schema-validator":
+                        item.start = 23        # each assignment is fine for its field; the pair is not
+                    elif defect == "required-string-emptied":
+                        item._data["name"] = None                  # stands for any way an item loses a value after it came in (a reset)
+                        cc.reset_value(item, "name")
+                    else:
+                        item._data["end"] = 30
+                except Exception:  # noqa
+                    res.case(None, kind="reinsertion:setup-rejected")
+                    continue
+                del log[:]
+                try:
+                    if route == "setitem-own-position":
+                        lst[2] = lst[2]
+                    elif route == "insert":
+                        lst.insert(0, item)
+                    elif route == "append":
+                        lst.append(item)
+                    elif route == "assign-new-list":
+                        cfg.sched.windows = list(lst)
+                    elif route == "extend":
+                        lst.extend([item])
+                    else:
+                        lst += [item]
+                    returned = True
+                except Exception:  # noqa
+                    returned = False
+                case = {"stream": "reinsertion", "config_type": typed, "defect": defect, "route": route, "validators_invoked": list(log)}
+                res.case(stable(case), kind="reinsertion:" + route)
+                if returned:
+                    res.violate("C11:item-not-validated:reinserted", "an item configuration that no longer meets the item schema's rule was inserted into a configuration list "
+                                "without being checked (it had been in that list before)", case)
+    # (c)
+    for kw in ({"min_len": 0}, {"max_len": 5}, {"min_len": 0, "max_len": 5}, {"min_len": 0, "transform_strip": True}, {"min_len": 0, "transform_case": "lower"}, {}):
+        for where in ("root", "nested", "list-item", "typed-list"):
+            for route in ("load_tree", "validate", "collect"):
+                s = cc.Schema()
+                item = cc.Schema()
+                item.label = cc.StringField(required=True, **kw)
+                s.owner = cc.StringField(required=True, default="root", **kw)
+                s.audit.sink = cc.StringField(required=True, default="log", **kw)
+                s.items = cc.ListField(item, default=lambda: [])
+                s.peers = cc.ListField(cc.StringField(required=True, **kw), default=lambda: ["a"])
+                tree = {"owner": "", "audit": {"sink": "x"}} if where == "root" else {"owner": "x", "audit": {"sink": ""}} if where == "nested" else \
+                    {"owner": "x", "items": [{"label": "ok"}, {"label": ""}]} if where == "list-item" else {"owner": "x", "peers": ["a", ""]}
+                cfg = s()
+                errs = None
+                try:
+                    if route == "load_tree":
+                        cfg.load_tree(tree)
+                    else:
+                        try:
+                            cfg.load_tree(tree, validate=False) if "validate" in cc.Config.load_tree.__code__.co_varnames else cfg.load_tree(tree)
+                        except Exception:  # noqa
+                            res.case(None, kind="required-with-bounds:rejected-early")
+                            continue
+                        errs = cfg.validate(collect_errors=(route == "collect"))
+                    returned = not errs
+                except Exception:  # noqa
+                    returned = False
+                case = {"stream": "required-with-bounds", "options": {k: str(v) for k, v in kw.items()}, "where": where, "route": route}
+                res.case(stable(case), kind="required-with-bounds:" + where)
+                if returned and where in ("root", "nested"):
+                    res.violate("C11:required-empty-accepted", "a load / validation returned although a required string is empty (its declaration also names a length bound)", case)
+                elif returned and route == "load_tree":
+                    res.violate("C11:required-empty-accepted", "a load returned although a required string inside a list is empty (its declaration also names a length bound)", case)
+
+
 def run(ctx, n_quick=250, n_thorough=8000):
     res = Result()
     tmp, keypath = P.setup(ctx)
@@ -773,6 +951,7 @@ def run(ctx, n_quick=250, n_thorough=8000):
     guard(res, "C11", catalogue_chain_stream, ctx, res)
     guard(res, "C11", flag_and_none_stream, ctx, res)
     guard(res, "C11", odd_exception_stream, ctx, res)
+    guard(res, "C11", registration_and_reinsertion_stream, ctx, res)
     return res
 
 
